@@ -90,7 +90,7 @@ STRENGTHENED = {
     "C06-m11": "missed at first (a deposit of nothing was not judged at all); such a deposit is still not required to accrue, but if it moved share values or fee buckets the accrual clock must have moved with them",
     "C06-m12": "missed at first by C06 (C07 sees the uncovered interest); a bankruptcy some time after the bank's last instruction must leave no debt of the bankrupt account behind, and the C06 storms run the insured-bankruptcy scenario with elapsed time",
     "C17-m11": "missed at first (no account with a sub-0.0001 debt ever met a cap); borrow, a minute of interest, repayment of the borrowed amount, then a deposit far over the cap",
-    "C03-m12": "the C03 check judged deposits, withdrawals, borrows, repayments and liquidation legs; closing a balance is now judged too (nothing but closure dust may leave the books in the user's favour)",
+    "C03-m12": "missed at first: the C03 check judged deposits, withdrawals, borrows, repayments and liquidation legs; closing a balance is now judged too (nothing but closure dust may leave the books in the user's favour)",
     "C09-m12": "the direct engine placed price ages around the configured maximum only; ages at multiples of 2^16 / 2^31 / 2^32 seconds plus an allowed age were added",
     "C07-m11": "the bankruptcy scenarios gave the account one debt only; half of them now add a second debt in another bank first",
     "C01-m11": "the C01 storms now run the insured-bankruptcy scenario, which first simulates the settlement with a foreign token account in the liquidity-vault slot",
